@@ -58,10 +58,10 @@ func (g *gatedReader) Close() error {
 func (g *gatedReader) Descriptor() ociregistry.Descriptor { return g.desc }
 
 type memberPlan struct {
-	closeFails   bool
-	ok           bool
-	delay        int  // yields before answering
-	waitsCancel  bool // returns ctx.Err() as soon as its context is cancelled
+	closeFails  bool
+	ok          bool
+	delay       int  // yields before answering
+	waitsCancel bool // returns ctx.Err() as soon as its context is cancelled
 }
 
 type memberLog struct {
@@ -132,13 +132,21 @@ func c16(env *core.Env) {
 			return ociregistry.Descriptor{Digest: dig, Size: int64(100 + i), MediaType: "application/octet-stream"}, nil
 		}
 		return &ociregistry.Funcs{
-			GetBlob_: func(ctx context.Context, repo string, d ociregistry.Digest) (ociregistry.BlobReader, error) { return rd(ctx) },
+			GetBlob_: func(ctx context.Context, repo string, d ociregistry.Digest) (ociregistry.BlobReader, error) {
+				return rd(ctx)
+			},
 			GetBlobRange_: func(ctx context.Context, repo string, d ociregistry.Digest, o0, o1 int64) (ociregistry.BlobReader, error) {
 				return rd(ctx)
 			},
-			GetManifest_:     func(ctx context.Context, repo string, d ociregistry.Digest) (ociregistry.BlobReader, error) { return rd(ctx) },
-			ResolveBlob_:     func(ctx context.Context, repo string, d ociregistry.Digest) (ociregistry.Descriptor, error) { return rs(ctx) },
-			ResolveManifest_: func(ctx context.Context, repo string, d ociregistry.Digest) (ociregistry.Descriptor, error) { return rs(ctx) },
+			GetManifest_: func(ctx context.Context, repo string, d ociregistry.Digest) (ociregistry.BlobReader, error) {
+				return rd(ctx)
+			},
+			ResolveBlob_: func(ctx context.Context, repo string, d ociregistry.Digest) (ociregistry.Descriptor, error) {
+				return rs(ctx)
+			},
+			ResolveManifest_: func(ctx context.Context, repo string, d ociregistry.Digest) (ociregistry.Descriptor, error) {
+				return rs(ctx)
+			},
 		}
 	}
 	u := ociunify.New(mkMember(0), mkMember(1), &ociunify.Options{ReadPolicy: ociunify.ReadConcurrent})
